@@ -651,3 +651,94 @@ func runErrorPaths(c *Ctx, im *Impl, tmp string) {
 	check("unit-object-without-directory", le1 != nil && le2 != nil && le3 != nil,
 		fmt.Sprintf("a unit object whose directory does not exist: LastUpdateError=%v Load=%v Save=%v", le1, le2, le3))
 }
+
+// runSharedObject: ONE BaseWorkUnit object, as the daemon has one per unit: a goroutine updates it
+// (UpdateBasicStatus(n, "n", n) and UpdateFullStatus writing the same matching triple) while other
+// goroutines of the same process ask it for its status.  Every record a reader is given must be
+// one that some update produced: State, Detail and StdoutSize all of the same n - the in-memory
+// copy is replaced atomically too ("a reader never sees a mixture").
+func runSharedObject(c *Ctx, im *Impl, tmp string) {
+	if workceptor.MainInstance == nil {
+		nc := netceptor.New(context.Background(), "c14errs")
+		w, err := workceptor.New(context.Background(), nc, filepath.Join(tmp, "errs-data"))
+		Must(err)
+		workceptor.MainInstance = w
+	}
+	w := workceptor.MainInstance
+	rounds, updates := 3, 2500
+	if c.Thorough() {
+		rounds, updates = 12, 8000
+	}
+	for round := 0; round < rounds; round++ {
+		id := fmt.Sprintf("shared%d", round)
+		u := workceptor.CommandWorkerCfg{WorkType: "cmd", Command: "true"}.NewWorker(nil, w, id, "cmd")
+		Must(os.MkdirAll(u.UnitDir(), 0o700))
+		Must(u.Save())
+		u.UpdateBasicStatus(1000, "1000", 1000)
+		stop := make(chan struct{})
+		var wg sync.WaitGroup
+		var mu sync.Mutex
+		mixed := ""
+		reads := 0
+		nReaders := 3 + round%2
+		for r := 0; r < nReaders; r++ {
+			wg.Add(1)
+			go func(r int) {
+				defer wg.Done()
+				n := 0
+				for {
+					select {
+					case <-stop:
+						mu.Lock()
+						reads += n
+						mu.Unlock()
+						return
+					default:
+					}
+					var st *workceptor.StatusFileData
+					if (r+n)%2 == 0 {
+						st = u.Status()
+					} else {
+						st = u.UnredactedStatus()
+					}
+					n++
+					if st.Detail != fmt.Sprint(st.State) || st.StdoutSize != int64(st.State) {
+						mu.Lock()
+						if mixed == "" {
+							mixed = fmt.Sprintf("State=%d Detail=%q StdoutSize=%d", st.State, st.Detail, st.StdoutSize)
+						}
+						mu.Unlock()
+					}
+				}
+			}(r)
+		}
+		for n := 1001; n < 1001+updates; n++ {
+			if n%3 == 0 {
+				u.UpdateFullStatus(func(s *workceptor.StatusFileData) {
+					s.State, s.Detail, s.StdoutSize = n, fmt.Sprint(n), int64(n)
+				})
+			} else {
+				u.UpdateBasicStatus(n, fmt.Sprint(n), int64(n))
+			}
+			if err := u.LastUpdateError(); err != nil {
+				im.Violate("update of the shared unit object failed: "+err.Error(), "c14-update-error", id)
+				break
+			}
+		}
+		close(stop)
+		wg.Wait()
+		fin := u.Status()
+		stored := &workceptor.StatusFileData{}
+		_ = stored.Load(filepath.Join(u.UnitDir(), "status"))
+		last := 1000 + updates
+		if mixed != "" {
+			im.Violate(fmt.Sprintf("a reader of the unit object was given %s: a mixture of two updates (every update writes State, Detail and StdoutSize of one n)", mixed), "c14-mixed-in-memory-record", id)
+		}
+		if fin.State != last || stored.State != last || stored.Detail != fmt.Sprint(last) || stored.StdoutSize != int64(last) {
+			im.Violate(fmt.Sprintf("after %d updates the object says State=%d and the file (%d,%q,%d), expected %d", updates, fin.State, stored.State, stored.Detail, stored.StdoutSize, last), "c14-lost-update", id)
+		}
+		im.Count(fmt.Sprintf("shared-object round %d: %d updates, %d readers, %d reads", round, updates, nReaders, reads), reads >= updates/10)
+		im.Hist("shared-object:rounds")
+		_ = os.RemoveAll(u.UnitDir())
+	}
+}
